@@ -149,6 +149,12 @@ func runC05(c *runCtx) {
 	r := c.rng
 	inputs := [][]byte{{}, []byte("a"), []byte("%PDF-1.4 rest of the file"), []byte("{\"a\":[1,2,3]}"), []byte("a,b\n1,2\n3,4\n"), []byte("<html><head><meta charset=\"koi8-r\"></head></html>"),
 		{0x89, 'P', 'N', 'G', 0x0D, 0x0A, 0x1A, 0x0A, 0, 0, 0, 13}, randBytes(r, 40), randText(r, 300), cat([]byte("PK\x03\x04"), make([]byte, 26), []byte("META-INF/MANIFEST.MF"), randBytes(r, 50))}
+	// small line-format documents whose verdict depends on whether they were examined whole or cut (no final newline,
+	// an incomplete or ragged last line): a file shorter than the limit is examined whole by every entry point
+	for _, s := range []string{"a,b\n1,2", "a,b\n1,2\n3", "a,b\r\n1,2\r\n3,4", "a\tb\n1\t2", "{\"a\":1}\n{\"b\":2}", "{\"a\":1}\n{\"b\":", "[1]\n[2]\n[3",
+		"id,name,qty\n1,bolt,10\n2,nut,20\nragged", "id,name,qty\n1,bolt,10\n2,nut,20\nragged\n", "{\"type\":\"Feature\"", "[1,2", "{\"a\":1}"} {
+		inputs = append(inputs, []byte(s))
+	}
 	for _, s := range fileSeeds("/repo") {
 		d := s.data
 		if len(d) > 4000 {
@@ -225,7 +231,7 @@ func runC05(c *runCtx) {
 		for i, x := range inputs {
 			p := filepath.Join(dir, fmt.Sprintf("f%d.bin", i))
 			os.WriteFile(p, x, 0o644)
-			for _, l := range []uint32{0, 3072, 5} {
+			for _, l := range []uint32{0, 3072, 5, uint32(len(x)), uint32(len(x) + 1)} {
 				if !c.mine(x, []byte("file"), []byte(strconv.Itoa(int(l)))) {
 					continue
 				}
